@@ -432,8 +432,11 @@ pub fn run(ctx: &Ctx) -> CheckOutput {
                 JobOut { stats: st, viols: sink.take(), samples: vec![json!({"explorer":"TREE x TREE","scalar":"Q","view":spec.name(),"K":k,"prefix_alphabet":cat(&Z3,&BIG),"prefix_depth":pdepth,"suffix_alphabet":Z3})] }
             }));
         }
-        // (the third alphabet is Z3 in a unit of 2^-70: an absolute threshold turns "nearly flat" into "holding")
-        for alpha in [Z3.to_vec(), Z5.to_vec(), Z3.iter().map(|x| x * 2f64.powi(-70)).collect::<Vec<f64>>()] {
+        // (the third alphabet mixes two units, 1 and 2^-70: a history in ordinary units followed by a
+        // window in a tiny unit - an absolute threshold then turns "nearly flat" into "holding" a
+        // value that depends on what preceded)
+        let t = 2f64.powi(-70);
+        for alpha in [Z3.to_vec(), Z5.to_vec(), vec![0.0, 1.0, -1.0, t, -t]] {
             let spec = spec.clone();
             jobs.push(Box::new(move || {
                 let mut st = Stats::default();
